@@ -23,7 +23,9 @@ ID_KINDS = {
     "uuid-v1": "e4b1c2d0-7e2c-11ea-bc55-0242ac130003",
 }
 ENTRIES = ["parse", "parse-text", "env-parse", "memory-store-ctor", "memory-source-ctor", "memory-sink-ctor", "memory-store-add", "memory-sink-add",
-           "memory-load-from-file", "fs-sink-add", "fs-source-get", "fs-source-all-versions", "fs-source-query", "memory-bundle-add"]
+           "memory-load-from-file", "fs-sink-add", "fs-source-get", "fs-source-all-versions", "fs-source-query", "memory-bundle-add",
+           # the same file read before under the other versions (and none) through the same and another source: no answer may depend on earlier reads
+           "fs-source-get-after-reads", "fs-source-query-after-reads"]
 VERSIONS = [None, "2.0", "2.1"]
 
 
@@ -112,6 +114,12 @@ def route(entry, doc, v, allow_custom, tmp):
     with open(fn, "w") as f:
         json.dump(doc, f)
     src = FileSystemSource(fsdir, allow_custom=allow_custom)
+    if entry.endswith("-after-reads"):
+        for k, other in enumerate(x for x in (None, "2.0", "2.1") if x != v):
+            earlier = src if k == 0 else FileSystemSource(fsdir, allow_custom=allow_custom)
+            core.guarded(earlier.get, oid, version=other)
+            core.guarded(earlier.query, [stix2.Filter("id", "=", oid)], version=other)
+        entry = entry[:-len("-after-reads")]
     if entry == "fs-source-get":
         return core.guarded(src.get, oid, version=v)
     if entry == "fs-source-all-versions":
@@ -236,8 +244,8 @@ def to_flavour(doc, ver, flavour):
 
 def run(ctx):
     ctx.level = "fault_enumeration"
-    ctx.rule = ("product of 14 entry points (parse dict/text, Environment.parse, MemoryStore/Source/Sink construction, store/sink add, bundle add, "
-                "load_from_file, FileSystemSink.add, FileSystemSource.get/all_versions/query) x version in {None,2.0,2.1} x every storable "
+    ctx.rule = ("product of 16 entry points (parse dict/text, Environment.parse, MemoryStore/Source/Sink construction, store/sink add, bundle add, "
+                "load_from_file, FileSystemSink.add, FileSystemSource.get/all_versions/query, and get/query after the same file was read under the other versions) x version in {None,2.0,2.1} x every storable "
                 "type of both versions (generated minimal-ish valid documents; 2.1 documents also with spec_version removed = shape valid "
                 "under both) x identifier in {valid, nil UUID, non-RFC-4122 variant, UUIDv1} x allow_custom; reference = direct keyword "
                 "parse. Plus: every generated object serialized by the library is re-parsed with no version named. Non-trivial = the two "
